@@ -126,7 +126,8 @@ class Req:
 def rand_body(rng, maxlen=40):
     n = rng.choice([1, 2, 3, 5, 8, 16, rng.randint(1, maxlen)])
     # bodies deliberately look like HTTP so that a desynchronised parser finds "requests"
-    pool = [b"GET /smuggled HTTP/1.1\r\nHost: h\r\n\r\n", b"0\r\n\r\n", b"\r\n", b"hello world", bytes(range(256))]
+    pool = [b"GET /smuggled HTTP/1.1\r\nHost: h\r\n\r\n", b"0\r\n\r\n", b"\r\n", b"hello world", bytes(range(256)),
+            b" " * 64, b"\t \t " * 16]    # (whitespace left behind in the read buffer must never influence later parsing)
     src = rng.choice(pool)
     if len(src) < n:
         src = src * (n // len(src) + 1)
@@ -191,6 +192,7 @@ def gen_request(rng, lvl, defect=None, http10=False):
         fields.append((b"Connection", rng.choice([b"Keep-Alive", b"keep-alive", b"foo, Keep-Alive"])))
     elif rng.random() < 0.08:
         fields.append((b"Connection", rng.choice([b"close", b"Close", b"foo,close", b"keep-alive", b"foo"])))
+    expect = (not http10) and rng.random() < 0.15
     kind = rng.choice(["none", "cl", "chunked", "chunked"])
     if defect in DEFECTS_BODY or defect in ("te-cl", "te-two", "te-not-chunked"):
         kind = "chunked"
@@ -248,6 +250,10 @@ def gen_request(rng, lvl, defect=None, http10=False):
         if defect in DEFECTS_BODY:
             enc = defective_chunks(rng, body, defect)
         r.body_bytes = enc + trailer_bytes(tr)
+    if expect:
+        # RFC 9110 10.1.1: the client may send the body without waiting for "100 Continue"
+        fields.insert(rng.randint(0, len(fields)), (rng.choice([b"Expect", b"expect"]),
+                                                     rng.choice([b"100-continue", b"100-Continue", b"100-continue", b"something-else"])))
     rng.shuffle(fields) if rng.random() < 0.3 and defect not in ("cl-two-differ", "te-two", "te-cl") else None
     r.fields = fields
     return r
@@ -499,6 +505,10 @@ def parse_wire(data):
         sl = re.fullmatch(rb"HTTP/1\.[01] ([0-9]{3}) [^\r\n]*", lines[0])
         if not sl:
             return out, "bad status line %r" % lines[0][:40]
+        if 100 <= int(sl.group(1)) <= 199:
+            # interim reply (100 Continue): no body, not a reply to count
+            pos = he + 4
+            continue
         cl = None
         close = False
         for l in lines[1:]:
@@ -826,6 +836,18 @@ def segmentations(rng, stream, tier, short):
     return segs
 
 
+def line_segments(stream):
+    """one segment per line (cut after every LF): every line end coincides with a read boundary"""
+    out, start = [], 0
+    for i, ch in enumerate(stream):
+        if ch == 10:
+            out.append(stream[start:i + 1])
+            start = i + 1
+    if start < len(stream):
+        out.append(stream[start:])
+    return out
+
+
 def gen_stream(rng, lvl, want_defect):
     """1..4 requests; at most the last one carries a defect"""
     k = rng.choice([1, 1, 2, 2, 3, 4])
@@ -896,7 +918,8 @@ class Spec:
                     "reference framer / chunk grammar in lean/Mhd/Model/FramingRef.lean (specification, read it) and its independent Python twin in tools/props/C03.py",
                     "tools/props/C03.py gen_framing (thresholds, status codes, header names regenerated)",
                     "harness/h_conn03.c (copy of the shared daemon harness + settle/feed, recv progress shim), harness/h_chunk.c, gcc, ASan/UBSan"]
-    assumptions = ["request heads are canonical (strict CRLF, single SP, token names, no Cookie/Expect, method not HEAD/CONNECT, unreserved target): the request-head parser itself is C02's",
+    assumptions = ["request heads are canonical (strict CRLF, single SP, token names, no Cookie, method not HEAD/CONNECT, unreserved target): the request-head parser itself is C02's",
+                   "the interim '100 Continue' reply is not an event of the model (the Expect path need_100_continue / CONTINUE_SENDING is modelled as a state); interim replies are skipped when replies are compared",
                    "the application takes every byte it is offered (partial takes are exercised by the correspondence only) and always replies at the final call",
                    "socket always writable; one connection; external select mode",
                    "responses have a known size (no close-delimited replies)"]
@@ -1011,12 +1034,69 @@ class Spec:
             if len(stream) <= 400:
                 cases.append({"lvl": lvl, "mem": mem, "behs": behs, "segs": [stream[j:j + 1] for j in range(len(stream))],
                               "stream": stream, "defect": defect})
+            # one read per line
+            if len(stream) <= 600:
+                cases.append({"lvl": lvl, "mem": mem, "behs": behs, "segs": line_segments(stream), "stream": stream, "defect": defect})
             # all levels on the whole stream, partial takes
             for l2 in LEVELS:
                 if l2 != lvl:
                     cases.append({"lvl": l2, "mem": mem, "behs": behs, "segs": [stream], "stream": stream, "defect": defect})
             cases.append({"lvl": lvl, "mem": mem, "behs": behs, "segs": [stream], "stream": stream, "defect": defect,
                           "take": rng.choice(["1", "2,all", "1,3", "all,1"])})
+        return cases
+
+    def expect_cases(self, ctx, n):
+        """`Expect: 100-continue` requests with a body that looks like a request, Content-Length and chunked,
+        reply at the first / final call, body sent with the head or in a later segment, then a further request"""
+        rng = ctx.rng
+        cases = []
+        smug = b"GET /smuggled HTTP/1.1\r\nHost: h\r\n\r\n"
+        for i in range(n):
+            lvl = rng.choice(LEVELS)
+            body = smug if rng.random() < 0.7 else rand_body(rng)
+            exp = rng.choice([b"100-continue", b"100-Continue"])
+            m = rng.choice([b"POST", b"PUT"])
+            if rng.random() < 0.5:
+                head = m + b" /deny HTTP/1.1\r\nHost: h\r\nExpect: " + exp + b"\r\nContent-Length: %d\r\n\r\n" % len(body)
+                enc = body
+            else:
+                head = m + b" /deny HTTP/1.1\r\nHost: h\r\nTransfer-Encoding: chunked\r\nExpect: " + exp + b"\r\n\r\n"
+                enc = chunk_encode(rng, body, lvl, False, False) + b"\r\n"
+            tail = rng.choice([b"", b"GET /after HTTP/1.1\r\nHost: h\r\n\r\n"])
+            stream = head + enc + tail
+            beh = rng.choice(["e403", "e200", "f200", "c200", "k200", "c404"])
+            behs = [beh, "c200", "c200"]
+            for segs in ([stream], [head, enc + tail], [head, enc, tail] if tail else [head, enc],
+                         [head[:-1], head[-1:] + enc + tail]):
+                cases.append({"lvl": lvl, "mem": 4096, "behs": behs, "segs": [x for x in segs if x], "stream": stream,
+                              "defect": "expect-100"})
+        return cases
+
+    def stale_buffer_cases(self, ctx, n):
+        """chunked requests whose chunk data is whitespace (it stays behind in the read buffer), with trailers and a
+        pipelined follow-up, delivered one line per read and cut after every line end: a parser that looks one byte
+        past the received data (fold look-ahead) then sees a stale SP/HT"""
+        rng = ctx.rng
+        cases = []
+        for i in range(n):
+            lvl = rng.choice(LEVELS)
+            ws = rng.choice([b" ", b"\t", b" \t"]) * rng.choice([8, 16, 32])
+            ws = ws[:rng.choice([16, 32, len(ws)])]
+            tr = rng.choice([[(b"X-T", b"v")], [(b"X-T", b"v"), (b"Y", b"zz")], [(b"Trailer-One", b"1")]])
+            head = b"POST /p HTTP/1.1\r\nHost: h\r\nTransfer-Encoding: chunked\r\n\r\n"
+            body = b"%x\r\n" % len(ws) + ws + b"\r\n0\r\n" + trailer_bytes(tr)
+            nxt = rng.choice([b"GET /next HTTP/1.1\r\nHost: h\r\n\r\n", b"GET /next HTTP/1.1\r\nHost: h\r\nX-A: 1\r\n\r\n",
+                              b"junk\r\nGET /next HTTP/1.1\r\nHost: h\r\n\r\n", b""])
+            stream = head + body + nxt
+            behs = ["c200", "c200"]
+            segl = [line_segments(stream), [head + body[:body.index(b"0\r\n")]] + line_segments(body[body.index(b"0\r\n"):] + nxt)]
+            cuts = [j + 1 for j, ch in enumerate(stream) if ch == 10]
+            for c in cuts:
+                if 0 < c < len(stream):
+                    segl.append([stream[:c], stream[c:]])
+            for segs in segl:
+                cases.append({"lvl": lvl, "mem": rng.choice([2048, 4096]), "behs": behs, "segs": segs, "stream": stream,
+                              "defect": "stale-ws"})
         return cases
 
     def small_arena_cases(self, ctx, n):
@@ -1234,7 +1314,8 @@ class Spec:
         self.run_cases(normal, failures, stats) if normal else None
         self.run_small(small, failures, stats) if small else None
         n_streams = (2500 if ctx.tier == "quick" else 15000) * (2 if boost else 1)
-        cases = self.gen_cases(ctx, n_streams)
+        cases = self.expect_cases(ctx, 150 if ctx.tier == "quick" else 1500) \
+            + self.stale_buffer_cases(ctx, 120 if ctx.tier == "quick" else 1200) + self.gen_cases(ctx, n_streams)
         B = 1500
         for i in range(0, len(cases), B):
             self.run_cases(cases[i:i + B], failures, stats)
